@@ -105,6 +105,7 @@ class Unit:
         self.bounded = []
         self.notes = []
         self.canary_skip = set()
+        self.enum_variants = {}   # enum name -> (variants present in the extracted enum, has VxOther)
 
     # ---------- raw text ----------
     def feature(self, *names):
@@ -252,6 +253,7 @@ pub assume_specification [<{q} as PartialEq>::eq] (a: &{q}, b: &{q}) -> (r: bool
             edits.append((e['ident'][0] - len('enum '), e['ident'][0] - len('enum '), [Seg('pub ')]))
         elif src[e['vis'][0]:e['vis'][1]].decode() != 'pub':
             edits.append((e['vis'][0], e['vis'][1], [Seg('pub')]))
+        self.enum_variants[name] = ([v['name'] for v in e['variants'] if keep is None or v['name'] in keep], bool(dropped and other))
         e = dict(e)
         if keep is not None:
             e['variants'] = [v for v in e['variants'] if v['name'] in keep] + ([{'name': 'VxOther', 'fields': []}] if dropped and other else [])
@@ -317,7 +319,7 @@ pub assume_specification [<{q} as PartialEq>::eq] (a: &{q}, b: &{q}) -> (r: bool
     # ---------- functions ----------
     def fn(self, path, impl, fn, requires=(), ensures=(), loops=None, ghost=(), subst=(), trait=None,
            erase_async=False, mut_self=False, ret_name='r', decreases=None, keep_macros=(), external_body=False,
-           let_chains=True, fmt=True, hash_loops=(), vis='pub', recommends=(), trait_full=None):
+           let_chains=True, fmt=True, hash_loops=(), vis='pub', recommends=(), trait_full=None, keep_arms=None, as_inherent=False):
         """Extract one fn verbatim and splice its contract.  Returns a list of Seg (to be put in an impl block).
         requires/ensures: list of (name, text).  loops: {ordinal: dict(invariant=[(name,text)], decreases=text, iter='vx_it')}
         ghost: list of (anchor, text) with anchor in ('body_start',), ('body_end',), ('loop_start',k), ('loop_end',k),
@@ -342,7 +344,7 @@ pub assume_specification [<{q} as PartialEq>::eq] (a: &{q}, b: &{q}) -> (r: bool
         if e['vis'] is not None:
             start = min(start, e['vis'][0])
         a = start
-        if trait is None and vis:
+        if (trait is None or as_inherent) and vis:
             if e['vis'] is None:
                 edits.append((e['sig'][0], e['sig'][0], [Seg(vis + ' ')]))
             elif src[e['vis'][0]:e['vis'][1]].decode() != vis:
@@ -485,6 +487,44 @@ pub assume_specification [<{q} as PartialEq>::eq] (a: &{q}, b: &{q}) -> (r: bool
                 edits.append((ts + 1, ts + 1, [Seg(' if ' + ' && '.join(parts[1:]) + ' {')]))
                 edits.append((tt - 1, tt - 1, [Seg('} ')]))
                 self._rw('R5')
+        # R6 on match arms: arms whose pattern names a variant that was dropped from the enum are dropped with it;
+        # the remainder of the enum is the single variant VxOther, whose arm is `unreachable!()` (so the contract must
+        # exclude it: the verified statement is about the kept variants only)
+        dropped_arm_spans = []
+        if keep_arms:
+            for M in e['matches']:
+                hit = False
+                for enum_name, keep in keep_arms.items():
+                    arms_of_enum = [arm for arm in M['arms'] if any(pp.split('::')[-2:-1] == [enum_name] for pp in arm['paths'])]
+                    if not arms_of_enum:
+                        continue
+                    if any(dropped_arm_spans and ds[0] <= M['span'][0] and M['span'][1] <= ds[1] for ds in dropped_arm_spans):
+                        continue
+                    if enum_name not in self.enum_variants:
+                        raise ToolLimit(f'{fn}: keep_arms for {enum_name}: extract the enum first')
+                    present, has_other = self.enum_variants[enum_name]
+                    n = 0
+                    for arm in arms_of_enum:
+                        vs = [pp.split('::')[-1] for pp in arm['paths'] if pp.split('::')[-2:-1] == [enum_name]]
+                        if all(v not in keep for v in vs):
+                            if all(v in present for v in vs):
+                                # variant still exists: keep the pattern, the arm body becomes unreachable!() (the contract must exclude it)
+                                edits.append((arm['body'][0], arm['body'][1], [Seg('{ unreachable!() }')]))
+                                dropped_arm_spans.append(tuple(arm['body']))
+                            else:
+                                edits.append((arm['span'][0], arm['span'][1], []))
+                                dropped_arm_spans.append(tuple(arm['span']))
+                            n += 1
+                        elif any(v not in keep for v in vs):
+                            raise ToolLimit(f'{fn}: or-pattern mixes kept and dropped variants of {enum_name}')
+                    if n:
+                        self._rw('R6', n)
+                        if has_other:
+                            edits.append((M['brace_close'], M['brace_close'], [Seg(f'{enum_name}::VxOther => {{ unreachable!() }}\n')]))
+            # edits that lie inside a dropped arm must go
+            def inside(x):
+                return any(ds[0] <= x[0] and x[1] <= ds[1] and (x[0], x[1]) != ds for ds in dropped_arm_spans)
+            edits = [x for x in edits if not inside(x)]
         # literal substitutions (tagged rewrites)
         body_off = a
         whole = src[a:b].decode()
@@ -567,7 +607,7 @@ pub assume_specification [<{q} as PartialEq>::eq] (a: &{q}, b: &{q}) -> (r: bool
                                  'text': 'implicit: callee preconditions, arithmetic overflow, index bounds, unwrap, panic!/unreachable! arms unreachable'}
             clause_list.append(cid)
             self.functions.append({'id': fid, 'path': path, 'impl': impl, 'fn': fn, 'clauses': clause_list,
-                                   'loops': len(e['loops']), 'trait': trait is not None})
+                                   'loops': len(e['loops']), 'trait': (trait is not None) and not as_inherent})
         else:
             self.notes.append(f'assumed (external_body) contract on krill fn {fid}')
         self.extracted.append((path, f'fn {(impl + "::") if impl else ""}{fn}' + (' [signature only, body assumed]' if external_body else '')))
